@@ -1,5 +1,6 @@
 import Storrent.Model.Lifecycle
 import Storrent.Gen.Blocking
+import Storrent.Gen.SelfSend
 /-
 C17 — Torrent lifecycle: no call hangs, deletion is complete.
 Table theorems are over the blocking-point table regenerated from the Go source on every
@@ -21,6 +22,19 @@ theorem C17_gen_peer_done_defer : Gen.peerDoneDeferBeforeReturns = true := by de
 /-- … and `close(peer.Done)` is the first statement of that deferred block: the flush loop
     after it leaves the block with a bare `return` when the torrent's Done is closed -/
 theorem C17_gen_peer_done_first : Gen.peerDoneCloseFirst = true := by decide
+
+/-- **The loop never sends to itself.**  No function of package tor that runs on the event
+    loop's goroutine (reachable from Torrent.run / handleEvent through calls that are not `go`
+    statements; static call graph by name, conservative) sends on the torrent's own queue or
+    calls anything that does (Have, BadPeer(s), Request, NewPeer, writeEvent, …): the loop can
+    therefore never wait for room in a queue only it drains, whose Done only it closes. -/
+theorem C17_loop_never_self_sends : Gen.loopSelfSends = [] := by decide
+
+-- non-vacuity: the graph is not empty and the reporting calls ARE queue senders
+example : "tor.finalisePiece" ∈ Gen.loopReachable ∧ "tor.handleEvent" ∈ Gen.loopReachable ∧
+    "tor.periodicRequest" ∈ Gen.loopReachable := by decide
+example : "tor.Torrent.Have" ∈ Gen.queueSenders ∧ "tor.Torrent.BadPeers" ∈ Gen.queueSenders ∧
+    "tor.writer.writeEvent" ∈ Gen.queueSenders := by decide
 
 def Point.guarded (p : Point) : Bool :=
   p.sel && (p.alts.contains .tDone || p.alts.contains .pDone || p.alts.contains .ctxDone
